@@ -104,10 +104,10 @@ def run_case(case):
                 if a == "parse":
                     specs[oi] = make_obj(o)
                     specs[oi].parse()
-                    o["implAst"] = readback(specs[oi].ast.specs[-1], S)
+                    o["implAst"] = readback(specs[oi].ast.specs[-1], S, full=("written" in o))
                 elif a == "pastify":
                     specs[oi].pastify()
-                    o["implPast"] = readback(specs[oi].ast.specs[-1], S)
+                    o["implPast"] = readback(specs[oi].ast.specs[-1], S, full=("written" in o))
                 elif a in ("update", "evaluate") and o.get("dense"):
                     spec = specs[oi]
                     tS = o.get("tS", 1)
@@ -118,6 +118,14 @@ def run_case(case):
                     r = spec.update(*args) if a == "update" else spec.evaluate(*args)
                     ev["ret"] = [[enc(p[0], 2 * tS), enc(p[1], S)] for p in r]
                     ev["same"] = (args == keep)
+                elif a == "dt_evaluate":
+                    spec = specs[oi]
+                    data = {"time": list(ev["ts"])}
+                    for v in sorted(ev["w"].keys()):
+                        data[v] = [py_val(x, S, ev.get("flt", False)) for x in ev["w"][v]]
+                    ev["ret"] = []
+                    r = spec.evaluate(data)
+                    ev["ret"] = [[enc(p[0], 2), enc(p[1], S)] for p in r]
                 elif a == "update":
                     spec = specs[oi]
                     order = ev.get("order") or sorted(ev["s"].keys())
